@@ -30,6 +30,7 @@ from . import c16_script
 
 LEVEL = 'model_checking'
 WORK = os.path.join(tlc.WORK, 'c16')
+TAG = ['c16']       # scratch prefix, made tier specific in run() so that tiers can run side by side
 PY = '/venv/bin/python'
 
 INVARIANTS = ['TypeOK', 'AtMostOnce', 'ExactlyOnce', 'MutexRange', 'MutexArrays', 'NoLostUpdate', 'NoPartialResult',
@@ -96,7 +97,7 @@ def design_runs(tier):
 def run_design(tag, kw, expect):
     kw = dict(kw)
     kw.setdefault('deadlock', True)
-    res = tlc.run('MCParallel', tag='c16-' + tag, **kw)
+    res = tlc.run('MCParallel', tag=TAG[0] + '-' + tag, **kw)
     return tag, res, expect
 
 
@@ -202,7 +203,7 @@ def exprbuilder_scripts(rep, rng):
     from nutils import evaluable as ev, parallel
     from .. import exprs, dag
     loops = exprs.generate(rep, 'c16-loops', MaxNodes=10, MaxOps=5, MaxLeaves=4, EmitMin=3, Ops=exprs.LOOP_OPS,
-                           LeafSet='{1, 2, 8, 13, 14, 20, 22, 23}', simulate=600, depth=11, seed=rep.seed + 12)
+                           LeafSet='{1, 2, 8, 13, 14, 20, 22, 23}', simulate=400, depth=11, seed=rep.seed + 12)
     loops = [p for p in loops if any(n['op'] in ('LoopSum', 'LoopConcat') for n in p)]
     scripts = []
     for prog in loops:
@@ -232,7 +233,7 @@ def describe(rec):
     return '+'.join(sorted(set(why))) or 'locks'
 
 
-def check_table(rep, scripts, tag='c16-table'):
+def check_table(rep, scripts, tag='table'):
     """export every outermost parallel loop, let TLC decide; returns {signature: record}"""
     recs = {}
     nloops = 0
@@ -257,12 +258,12 @@ def check_table(rep, scripts, tag='c16-table'):
         if not items:
             break
         cfgs = [c16_script.config(rec, k + 1) for k, (sig, rec) in enumerate(items)]
-        wd = os.path.join(WORK, 'table')
+        wd = os.path.join(tlc.WORK, TAG[0], 'table')
         os.makedirs(wd, exist_ok=True)
         path = os.path.join(wd, 'table{}.json'.format(attempt))
         with open(path, 'w') as f:
             json.dump(cfgs, f)
-        res = tlc.run('MCParallelIO', 'MCParallel_table.cfg', tag=tag, env=dict(VF_TABLE=path), deadlock=True, workers=8)
+        res = tlc.run('MCParallelIO', 'MCParallel_table.cfg', tag=TAG[0] + '-' + tag, env=dict(VF_TABLE=path), deadlock=True, workers=8)
         rep.add_tlc(res)
         if not res.violated:
             rep.traces += len(items)
@@ -291,7 +292,7 @@ def check_table(rep, scripts, tag='c16-table'):
 
 def simulate(rep, tier, seed):
     """TLC -simulate over Parallel with history recording (spec/MCParallel_sim.cfg); returns the emitted behaviours"""
-    res = tlc.run('MCParallelIO', 'MCParallel_sim.cfg', tag='c16-sim', workers=1, simulate=dict(num=24 if tier == 'quick' else 250), depth=600,
+    res = tlc.run('MCParallelIO', 'MCParallel_sim.cfg', tag=TAG[0] + '-sim', workers=1, simulate=dict(num=24 if tier == 'quick' else 200), depth=600,
                   seed=seed, deadlock=False, timeout=800)
     if res.violated:
         raise RuntimeError('design spec Parallel violates {} in simulation'.format(res.violated))
@@ -301,7 +302,7 @@ def simulate(rep, tier, seed):
 def replay(rep, behs, nserv=3):
     """run the slim replay servers (c16_step) over the behaviours"""
     jobs = [(b['cfg'], dict(hist=b['hist'], outcome=b['outcome'], result=b['result'], index=b['index'])) for b in behs]
-    wd = os.path.join(WORK, 'replay')
+    wd = os.path.join(tlc.WORK, TAG[0], 'replay')
     os.makedirs(wd, exist_ok=True)
     procs = []
     for k in range(nserv):
@@ -331,7 +332,7 @@ def replay(rep, behs, nserv=3):
 
 def scenarios(rng, tier):
     out = []
-    n = 7 if tier == 'quick' else 60
+    n = 7 if tier == 'quick' else 50
     kinds = ['integrate', 'locate', 'eval', 'evalint', 'integral', 'locate', 'integrate', 'locate']
     for k in range(n):
         kind = kinds[k % len(kinds)] if k < len(kinds) else rng.choice(kinds)
@@ -353,7 +354,7 @@ def scenarios(rng, tier):
 
 
 def run_dyn(jobs, tag):
-    wd = os.path.join(WORK, 'dyn')
+    wd = os.path.join(tlc.WORK, TAG[0], 'dyn')
     os.makedirs(wd, exist_ok=True)
     evpath = os.path.join(wd, tag + '.events')
     if os.path.exists(evpath):
@@ -495,7 +496,7 @@ def build_episodes(sc, res, events, scripts, cache, counters):
             key = (ep['call']['sid'], ep['call']['branch'])
             if key not in cache:
                 script = scripts.get(str(ep['call']['sid']))
-                cache[key] = [r for r in c16_script.analyse(script) if r['branch'] == ep['call']['branch']] if script else []
+                cache[key] = [r for r in c16_script.analyse(script) if r['branch'] in (ep['call']['branch'], 'only')] if script else []
             if ep['loopno'] < len(cache[key]):
                 rec = cache[key][ep['loopno']]
         if rec is not None and rec.get('irregular'):
@@ -526,19 +527,19 @@ def build_episodes(sc, res, events, scripts, cache, counters):
         elif not any(x['ev'] == 'hang' for x in evs):
             evs.append(dict(p=0, ev='raise', v=0, ok=True))
         shared = list(rec['shared']) or [True]
-        out.append(dict(id=sc['id'] * 100 + n, np=ep['np'], niter=ep['niter'], shared=shared, nlocks=rec['nlocks'], body=pad_nops([dict(op=st['op'], arr=st['arr'], locks=list(st['locks'])) for st in rec['body']]),
+        out.append(dict(id=sc['id'] * 100 + n, np=ep['np'], niter=ep['niter'], shared=shared, nlocks=rec['nlocks'], body=pad_nops([dict(op=st['op'], arr=st['arr'], locks=list(st['locks'])) for st in (c16_script.statements(rec) if rec['body'] and 'stmt' in rec['body'][0] else rec['body'])]),
                         killed=killed, events=evs, scenario=sc['id'], failed=failed))
     return out
 
 
-def validate_traces(rep, traces, tag='c16-trace'):
-    wd = os.path.join(WORK, 'traces')
+def validate_traces(rep, traces, tag='trace'):
+    wd = os.path.join(tlc.WORK, TAG[0], 'traces')
     os.makedirs(wd, exist_ok=True)
     path = os.path.join(wd, tag + '.json')
     slim = [dict(id=t['id'], np=t['np'], niter=t['niter'], shared=t['shared'], nlocks=t['nlocks'], body=t['body'], killed=t['killed'], events=t['events']) for t in traces]
     with open(path, 'w') as f:
         json.dump(slim, f)
-    res = tlc.run('TraceParallel', 'TraceParallel.cfg', tag=tag, workers=1, env=dict(VF_TRACE=path), deadlock=False, timeout=1200)
+    res = tlc.run('TraceParallel', 'TraceParallel.cfg', tag=TAG[0] + '-' + tag, workers=1, env=dict(VF_TRACE=path), deadlock=False, timeout=1200)
     rep.add_tlc(res)
     rejected = {}
     if res.violated:
@@ -618,7 +619,8 @@ def dynamic(rep, jobs, out, events):
 def run(rep):
     tier = rep.tier
     rng = random.Random(rep.seed)
-    os.makedirs(WORK, exist_ok=True)
+    TAG[0] = 'c16' + ('' if tier == 'quick' else '-' + tier)
+    os.makedirs(os.path.join(tlc.WORK, TAG[0]), exist_ok=True)
     pool = concurrent.futures.ThreadPoolExecutor(6)
     # ---- 1. design level (background)
     futs = [pool.submit(run_design, *r) for r in design_runs(tier)]
